@@ -398,9 +398,20 @@ def gen_cases(ctx):
             bad = side
         else:
             bad = r.sample(edge, r.randint(1, max(1, len(edge) // 3)))
-        nlon = [p for p in bad if r.random() < 0.6]
-        nlat = [p for p in bad if p not in nlon or r.random() < 0.2]
-        nanc.append((h, w, v, nlon, nlat))
+        cls = r.choice(["lat_only", "lat_only", "lon_only", "separate_masks", "mixed"])
+        if cls == "lat_only":          # valid longitude, NaN latitude
+            nlon, nlat = [], list(bad)
+        elif cls == "lon_only":
+            nlon, nlat = list(bad), []
+        elif cls == "separate_masks":  # two fill masks that do not coincide
+            nlon = [p for i, p in enumerate(bad) if i % 2 == 0]
+            nlat = [p for i, p in enumerate(bad) if i % 2 == 1] or [bad[0]]
+            nlon = [p for p in nlon if p not in nlat] if len(bad) > 1 else []
+        else:
+            nlon = [p for p in bad if r.random() < 0.6]
+            nlat = [p for p in bad if p not in nlon or r.random() < 0.2]
+        container = r.choice(["numpy", "numpy", "dask", "xarray", "xarray_dask"])
+        nanc.append((h, w, v, nlon, nlat, cls, container))
     c["nan"] = nanc
     # ---- geostationary areas
     geos = []
@@ -455,11 +466,17 @@ def run(ctx):
     ctx.rule = ("index tables np.linspace(.., dtype=int): all side lengths and vertex counts 1..30 ascending and descending plus "
                 "PRNG sizes up to 5000; _get_bbox_slices: all shapes 2..8 x 2..8 with vertices_per_side None, 2..12 plus PRNG shapes up "
                 "to 300 and out-of-scope shapes (1,n)/vps=1; rings: swaths whose lon/lat encode (row, col) in all 8 array orientations "
-                "(thorough: all shapes 2..8 x 2..8, all vps None,2..12; quick: a PRNG sample of 800 plus the 4x3 vps 4..6 cases), "
-                "synthetic polar-orbit swaths (ascending/descending, scan direction flipped), areas in 7 CRSs with the 4 extent "
-                "orientations, NaN edge pixels, geostationary full/partial-disk areas; a case is non-trivial when vertices_per_side "
-                "differs from the side length / the ring had to be reversed / the geometry is not north-up / NaNs hit a vertex / the "
-                "disk cuts the extent; distinct = distinct inputs")
+                "(thorough: all shapes 2..8 x 2..8, all vps None,2..12; quick: a PRNG sample of 800 plus the 4x3 vps 4..6 cases; some as "
+                "dask / xarray), synthetic polar-orbit swaths (ascending/descending, scan direction flipped), areas in 7 CRSs with the 4 "
+                "extent orientations, long narrow geometries with a side longer than half a great circle (3/4-orbit swaths "
+                "forward/backward/flipped/transposed, wide lon/lat grids in all 8 orientations), high-resolution geometries (10-100 m "
+                "pixels at |lon| > 90, |lat| > 45: UTM / polar stereographic areas in the 4 extent orientations, encoded swaths in the 8 "
+                "array orientations); legacy entry points (get_boundary_lonlats on a third (thorough: all) of the ring cases, "
+                "AreaDefBoundary(frequency) on vps=None cases, AreaBoundary.decimate on synthetic sides of 2..200 vertices with ratio "
+                "1..60, half of them after contour_poly was read); edge pixels with NaN in the latitude only / the longitude only / two "
+                "separate fill masks / both, as numpy, dask, xarray and xarray-of-dask swaths; geostationary full/partial-disk areas. "
+                "A case is non-trivial when vertices_per_side differs from the side length / the ring had to be reversed / the geometry "
+                "is not north-up / NaNs hit a vertex / decimation drops a vertex / the disk cuts the extent; distinct = distinct inputs")
     cases = gen_cases(ctx)
     payload = {"linspace": cases["linspace"], "slices": cases["slices"]}
     ring_in = []
@@ -474,7 +491,7 @@ def run(ctx):
         ring_in.append(q)
     # NaN cases ride on the ring stream (unforced sides only are used)
     nan_in = []
-    for (h, w, v, nlon, nlat) in cases["nan"]:
+    for (h, w, v, nlon, nlat, _cls, container) in cases["nan"]:
         lons = [[float(c) for c in range(w)] for _ in range(h)]
         lats = [[float(rr) for _ in range(w)] for rr in range(h)]
         for (rr, cc) in nlon:
@@ -482,7 +499,7 @@ def run(ctx):
         for (rr, cc) in nlat:
             lats[rr][cc] = float("nan")
         nan_in.append({"kind": "swath", "vps": v, "lons": [[hx(x) for x in row] for row in lons],
-                       "lats": [[hx(x) for x in row] for row in lats], "dask": False, "xarray": False})
+                       "lats": [[hx(x) for x in row] for row in lats], "dask": "dask" in container, "xarray": "xarray" in container})
     payload["rings"] = ring_in + nan_in
     payload["decimate"] = [{"lens": l, "ratio": q, "touch_poly_first": t} for (l, q, t) in cases.get("decimate", [])]
     X, Y, xa, ya = cases["geos_consts"]
@@ -500,23 +517,28 @@ def run(ctx):
     # ================================================================= index tables
     L = []
     for (start, stop, num), o in zip(cases["linspace"], obs["linspace"]):
-        n = max(start, stop) + 1
-        asc = start <= stop
-        ctx.case(("lin", start, stop, num), nontrivial=num >= 2 and num != n,
-                 sample={"linspace": [start, stop, num], "impl": o} if (n, num) == (5, 8) and start > stop else None)
-        ctx.count("linspace_" + ("beyond_side" if num > n else "within_side"))
-        if is_err(o):
-            ctx.add_failure("C16.linspace_idx", "np.linspace(%d, %d, %d, dtype=int) raised %s" % (start, stop, num, o["error"]),
-                            {"oracle": "linspace", "args": [start, stop, num]})
-            continue
-        if num >= 2:
-            t = o if asc else o[::-1]
-            ok = (len(t) == num and t[0] == 0 and t[-1] == n - 1 and all(0 <= x <= n - 1 for x in t)
-                  and all(a <= b for a, b in zip(t, t[1:])) and (all(a < b for a, b in zip(t, t[1:])) == (num <= n)))
-            if not ok:
-                ctx.add_failure("C16.linspace_idx", "np.linspace(%d, %d, %d, dtype=int) = %s violates the index-table specification"
-                                % (start, stop, num, o[:40]), {"oracle": "linspace", "args": [start, stop, num]})
-        L.append("(%d, %d, %d, [%s])" % (start, stop, num, "; ".join(str(x) for x in o)))
+        rep = None
+        try:
+            n = max(start, stop) + 1
+            asc = start <= stop
+            ctx.case(("lin", start, stop, num), nontrivial=num >= 2 and num != n,
+                     sample={"linspace": [start, stop, num], "impl": o} if (n, num) == (5, 8) and start > stop else None)
+            ctx.count("linspace_" + ("beyond_side" if num > n else "within_side"))
+            if is_err(o):
+                ctx.add_failure("C16.linspace_idx", "np.linspace(%d, %d, %d, dtype=int) raised %s" % (start, stop, num, o["error"]),
+                                {"oracle": "linspace", "args": [start, stop, num]})
+                continue
+            if num >= 2:
+                t = o if asc else o[::-1]
+                ok = (len(t) == num and t[0] == 0 and t[-1] == n - 1 and all(0 <= x <= n - 1 for x in t)
+                      and all(a <= b for a, b in zip(t, t[1:])) and (all(a < b for a, b in zip(t, t[1:])) == (num <= n)))
+                if not ok:
+                    ctx.add_failure("C16.linspace_idx", "np.linspace(%d, %d, %d, dtype=int) = %s violates the index-table specification"
+                                    % (start, stop, num, o[:40]), {"oracle": "linspace", "args": [start, stop, num]})
+            L.append("(%d, %d, %d, [%s])" % (start, stop, num, "; ".join(str(x) for x in o)))
+        except Exception as exc:      # an observation the oracle was not prepared for: attribute it, never crash
+            ctx.add_failure("C16.error.observation.linspace", "the oracle could not interpret what the implementation returned (%s: %s)" % (type(exc).__name__, exc),
+                            rep if isinstance(rep, dict) else {"oracle": "linspace"})
     for i in range(0, len(L), 300):
         texts.append(("c16_lin_%d" % (i // 300), HDR + "Definition cases : list (Z * Z * Z * list Z) := [%s].\nEval vm_compute in (bad chk_linspace cases).\n"
                       % ";\n".join(L[i:i + 300]), L[i:i + 300], "linspace_idx"))
@@ -524,29 +546,34 @@ def run(ctx):
     # ================================================================= _get_bbox_slices
     L = []
     for (h, w, v), o in zip(cases["slices"], obs["slices"]):
-        inscope = h >= 2 and w >= 2 and (v is None or v >= 2)
-        ctx.case(("sl", h, w, v), nontrivial=v is not None and (v != h or v != w),
-                 sample={"slices": {"shape": [h, w], "vertices_per_side": v}, "impl": o} if (h, w, v) == (4, 6, 3) else None)
-        ctx.count("slices_" + ("out_of_scope" if not inscope else "vps_none" if v is None else "vps_beyond_side" if v > min(h, w) else "vps_within"))
-        if is_err(o):
+        rep = None
+        try:
+            inscope = h >= 2 and w >= 2 and (v is None or v >= 2)
+            ctx.case(("sl", h, w, v), nontrivial=v is not None and (v != h or v != w),
+                     sample={"slices": {"shape": [h, w], "vertices_per_side": v}, "impl": o} if (h, w, v) == (4, 6, 3) else None)
+            ctx.count("slices_" + ("out_of_scope" if not inscope else "vps_none" if v is None else "vps_beyond_side" if v > min(h, w) else "vps_within"))
+            if is_err(o):
+                if inscope:
+                    ctx.add_failure("C16.bbox_slices", "_get_bbox_slices(%s) on shape (%d, %d) raised %s" % (v, h, w, o["error"]),
+                                    {"oracle": "slices", "args": [h, w, v]})
+                continue
+            res = [[(rr % h if rr < 0 else rr, cc % w if cc < 0 else cc) for rr, cc in s] for s in o]
             if inscope:
-                ctx.add_failure("C16.bbox_slices", "_get_bbox_slices(%s) on shape (%d, %d) raised %s" % (v, h, w, o["error"]),
-                                {"oracle": "slices", "args": [h, w, v]})
-            continue
-        res = [[(rr % h if rr < 0 else rr, cc % w if cc < 0 else cc) for rr, cc in s] for s in o]
-        if inscope:
-            flat = [p for s in res for p in s[:-1]]
-            bad = None
-            if not all((0 <= rr < h and 0 <= cc < w and (rr in (0, h - 1) or cc in (0, w - 1))) for s in res for rr, cc in s):
-                bad = ("C16.edge_pixels", "selects a pixel that is not on the outer rows/columns")
-            elif not all(res[i][-1] == res[(i + 1) % 4][0] for i in range(4)):
-                bad = ("C16.closure", "a side does not end where the next begins")
-            elif len(set(flat)) != len(flat):
-                bad = ("C16.no_repeat" + (".vps_gt_side" if v is not None and v > min(h, w) else ""), "repeats a pixel within the ring")
-            if bad:
-                ctx.add_failure(bad[0], "_get_bbox_slices(vertices_per_side=%s) on shape (%d, %d) %s: %s" % (v, h, w, bad[1], res),
-                                {"oracle": "slices", "args": [h, w, v]})
-        L.append("(%d, %d, %s, %s)" % (h, w, vpsl(v), sidesl(res)))
+                flat = [p for s in res for p in s[:-1]]
+                bad = None
+                if not all((0 <= rr < h and 0 <= cc < w and (rr in (0, h - 1) or cc in (0, w - 1))) for s in res for rr, cc in s):
+                    bad = ("C16.edge_pixels", "selects a pixel that is not on the outer rows/columns")
+                elif not all(res[i][-1] == res[(i + 1) % 4][0] for i in range(4)):
+                    bad = ("C16.closure", "a side does not end where the next begins")
+                elif len(set(flat)) != len(flat):
+                    bad = ("C16.no_repeat" + (".vps_gt_side" if v is not None and v > min(h, w) else ""), "repeats a pixel within the ring")
+                if bad:
+                    ctx.add_failure(bad[0], "_get_bbox_slices(vertices_per_side=%s) on shape (%d, %d) %s: %s" % (v, h, w, bad[1], res),
+                                    {"oracle": "slices", "args": [h, w, v]})
+            L.append("(%d, %d, %s, %s)" % (h, w, vpsl(v), sidesl(res)))
+        except Exception as exc:      # an observation the oracle was not prepared for: attribute it, never crash
+            ctx.add_failure("C16.error.observation.slices", "the oracle could not interpret what the implementation returned (%s: %s)" % (type(exc).__name__, exc),
+                            rep if isinstance(rep, dict) else {"oracle": "slices"})
     for i in range(0, len(L), 400):
         texts.append(("c16_slices_%d" % (i // 400), HDR + "Definition cases : list (Z * Z * option Z * list (list pix)) := [%s].\n"
                       "Eval vm_compute in (bad chk_slices cases).\n" % ";\n".join(L[i:i + 400]), L[i:i + 400], "bbox_slices"))
@@ -557,238 +584,248 @@ def run(ctx):
     shown = {}      # one evidence sample per ring class
     nring = len(cases["rings"])
     for g, o in zip(cases["rings"], obs["rings"][:nring]):
-        v = g["vps"]
-        rep = {"oracle": "ring", "case": {k: g[k] for k in g if k not in ("lons", "lats")}}
-        if g["kind"] == "swath":
-            rep["case"]["lons"], rep["case"]["lats"] = g["lons"], g["lats"]
-            lons, lats = g["lons"], g["lats"]
-            h, w = len(lons), len(lons[0])
-        if is_err(o):
-            ctx.add_failure("C16.error." + g["tag"].split("_")[0], "boundary code raised %s: %s" % (o["error"], o.get("msg")), rep)
-            continue
-        if g["kind"] == "area":
-            h, w = o["shape"]
-            fl = [uh(x) for x in o["lons"]]
-            fa = [uh(x) for x in o["lats"]]
-            lons = [fl[i * w:(i + 1) * w] for i in range(h)]
-            lats = [fa[i * w:(i + 1) * w] for i in range(h)]
-        table = {}
-        dup = False
-        for rr in range(h):
-            for cc in range(w):
-                key = (lons[rr][cc], lats[rr][cc])
-                if key in table:
-                    dup = True
-                table[key] = (rr, cc)
-        kindkey = g.get("key") or g["tag"].split("_")[0]
-        beyond = v is not None and v > min(h, w)
-        ctx.count("ring_%s_%s" % (kindkey, "vps_none" if v is None else "vps_beyond_side" if beyond else "vps_within"))
-        if dup or any(not math.isfinite(x) for row in lons for x in row):
-            ctx.count("ring_skipped_noninjective")
-            continue
-        errs = [k for k in ("sides_u", "sides_f", "contour", "edge", "cw") if is_err(o.get(k))]
-        if errs:
-            ctx.case(("ring", g["tag"], h, w, v, repr(g.get("k"))), nontrivial=True)
-            ctx.add_failure("C16.error." + kindkey, "%s of a %dx%d %s with vertices_per_side=%s raised %s" %
-                            (errs[0], h, w, g["tag"], v, o[errs[0]]["error"]), rep)
-            continue
-        su, sf = dec_sides(o["sides_u"], table), dec_sides(o["sides_f"], table)
-        cf, cu, ed = dec_list(o["contour"], table), dec_list(o["contour_u"], table), dec_list(o["edge"], table)
-        cw = o["cw"]
-        reversed_ = su != sf
-        ctx.case(("ring", g["tag"], h, w, v, repr(g.get("k")), repr(g.get("extent")), g["lons"][0][0] if g["kind"] == "swath" else 0),
-                 nontrivial=(v is not None and (v != h or v != w)) or reversed_ or g["tag"] != "enc" or g.get("k", 0) != 0,
-                 sample={"ring_" + kindkey: {"tag": g["tag"], "shape": [h, w], "vertices_per_side": v, "orientation": g.get("k"),
-                                             "extent": g.get("extent")},
-                         "impl_forced_sides": sf if sum(len(x) for x in sf) <= 40 else {"lengths": [len(x) for x in sf], "first": [x[:3] for x in sf]},
-                         "corner_is_clockwise": cw, "reversed": reversed_, "SphPolygon_area": o.get("area")}
-                 if (v is not None or kindkey != "enc") and not (kindkey == "enc" and min(h, w) < 3)
-                 and shown.setdefault(kindkey, 0) < 1 and not shown.update({kindkey: 1}) else None)
-        what = "%dx%d %s%s, vertices_per_side=%s" % (h, w, g["tag"], "" if g.get("k") is None else " orientation %d" % g["k"], v)
-        # ---- the property, clause by clause, on the forced ring and on boundary().contour
-        allv = [p for s in sf for p in s] + cf + [p for s in su for p in s] + cu + ed
-        if any(p is None for p in allv):
-            ctx.add_failure("C16.edge_pixels", "%s: a boundary vertex is not a pixel of the geometry" % what, rep)
-            continue
-        if not all(rr in (0, h - 1) or cc in (0, w - 1) for rr, cc in allv):
-            ctx.add_failure("C16.edge_pixels", "%s: a boundary vertex is not on the outer rows/columns" % what, rep)
-            continue
-        ok_struct = True
-        for nm, s in (("forced", sf), ("unforced", su)):
-            if len(s) != 4 or any(len(x) < 2 for x in s) or not all(s[i][-1] == s[(i + 1) % 4][0] for i in range(4)):
-                ctx.add_failure("C16.closure", "%s: %s sides do not each end where the next begins: %s" % (what, nm, s), rep)
-                ok_struct = False
-        if not ok_struct:
-            continue
-        if len(set(cf)) != len(cf) or len(set(cu)) != len(cu):
-            ctx.add_failure("C16.no_repeat" + (".vps_gt_side" if beyond else ""),
-                            "%s: the ring repeats a vertex: %d vertices, %d distinct (SphPolygon.area = %r)" % (what, len(cf), len(set(cf)), o.get("area")), rep)
-            continue
-        if cf != [p for s in sf for p in s[:-1]] or cu != [p for s in su for p in s[:-1]] or ed != [p for s in su for p in s]:
-            ctx.add_failure("C16.api_consistency", "%s: boundary().contour()/get_edge_lonlats() are not the sides minus their last vertex / the concatenated sides" % what, rep)
-            continue
-        if v is not None and (is_err(o.get("contour_freq")) or dec_list(o["contour_freq"], table) != cf or dec_sides(o["sides_freq"], table) != sf):
-            ctx.add_failure("C16.api_consistency.frequency", "%s: frequency= gives another ring than vertices_per_side=" % what, rep)
-            continue
-        if g["kind"] == "area" and not is_err(o.get("proj_edge")):
-            xt = {uh(x): i for i, x in enumerate(o["proj_x"])}
-            yt = {uh(y): i for i, y in enumerate(o["proj_y"])}
-            pe = [(yt.get(uh(y)), xt.get(uh(x))) for x, y in zip(o["proj_edge"][0], o["proj_edge"][1])]
-            if pe != ed:
-                ctx.add_failure("C16.api_consistency.proj_edge", "%s: get_edge_bbox_in_projection_coordinates visits other pixels than get_edge_lonlats" % what, rep)
+        rep = None
+        try:
+            v = g["vps"]
+            rep = {"oracle": "ring", "case": {k: g[k] for k in g if k not in ("lons", "lats")}}
+            if g["kind"] == "swath":
+                rep["case"]["lons"], rep["case"]["lats"] = g["lons"], g["lats"]
+                lons, lats = g["lons"], g["lats"]
+                h, w = len(lons), len(lons[0])
+            if is_err(o):
+                ctx.add_failure("C16.error." + g["tag"].split("_")[0], "boundary code raised %s: %s" % (o["error"], o.get("msg")), rep)
                 continue
-        # ---- legacy entry points: get_boundary_lonlats (complete sides), AreaDefBoundary(area, frequency) (decimated sides)
-        if "legacy_sides" in o:
-            if is_err(o["legacy_sides"]):
-                ctx.add_failure("C16.error.legacy", "%s: get_boundary_lonlats raised %s" % (what, o["legacy_sides"]["error"]), rep)
+            if g["kind"] == "area":
+                h, w = o["shape"]
+                fl = [uh(x) for x in o["lons"]]
+                fa = [uh(x) for x in o["lats"]]
+                lons = [fl[i * w:(i + 1) * w] for i in range(h)]
+                lats = [fa[i * w:(i + 1) * w] for i in range(h)]
+            table = {}
+            dup = False
+            for rr in range(h):
+                for cc in range(w):
+                    key = (lons[rr][cc], lats[rr][cc])
+                    if key in table:
+                        dup = True
+                    table[key] = (rr, cc)
+            kindkey = g.get("key") or g["tag"].split("_")[0]
+            beyond = v is not None and v > min(h, w)
+            ctx.count("ring_%s_%s" % (kindkey, "vps_none" if v is None else "vps_beyond_side" if beyond else "vps_within"))
+            if dup or any(not math.isfinite(x) for row in lons for x in row):
+                ctx.count("ring_skipped_noninjective")
                 continue
-            ls = dec_sides(o["legacy_sides"], table)
-            want = [[(0, cc) for cc in range(w)], [(rr, w - 1) for rr in range(h)],
-                    [(h - 1, cc) for cc in range(w - 1, -1, -1)], [(rr, 0) for rr in range(h - 1, -1, -1)]]
-            ctx.count("legacy_get_boundary_lonlats")
-            if ls != want:
-                ctx.add_failure("C16.legacy.boundary_lonlats", "%s: get_boundary_lonlats does not return the four complete edge rows/columns" % what, rep)
+            errs = [k for k in ("sides_u", "sides_f", "contour", "edge", "cw") if is_err(o.get(k))]
+            if errs:
+                ctx.case(("ring", g["tag"], h, w, v, repr(g.get("k"))), nontrivial=True)
+                ctx.add_failure("C16.error." + kindkey, "%s of a %dx%d %s with vertices_per_side=%s raised %s" %
+                                (errs[0], h, w, g["tag"], v, o[errs[0]]["error"]), rep)
                 continue
-            L_full.append("(%d, %d, %s)" % (h, w, sidesl(ls)))
-        if "adb_sides" in o:
-            ctx.count("legacy_AreaDefBoundary_frequency")
-            q = g["frequency_legacy"]
-            if is_err(o["adb_sides"]):
-                ctx.add_failure("C16.error.legacy", "%s: AreaDefBoundary(frequency=%d) raised %s" % (what, q, o["adb_sides"]["error"]), rep)
+            su, sf = dec_sides(o["sides_u"], table), dec_sides(o["sides_f"], table)
+            cf, cu, ed = dec_list(o["contour"], table), dec_list(o["contour_u"], table), dec_list(o["edge"], table)
+            cw = o["cw"]
+            reversed_ = su != sf
+            ctx.case(("ring", g["tag"], h, w, v, repr(g.get("k")), repr(g.get("extent")), g["lons"][0][0] if g["kind"] == "swath" else 0),
+                     nontrivial=(v is not None and (v != h or v != w)) or reversed_ or g["tag"] != "enc" or g.get("k", 0) != 0,
+                     sample={"ring_" + kindkey: {"tag": g["tag"], "shape": [h, w], "vertices_per_side": v, "orientation": g.get("k"),
+                                                 "extent": g.get("extent")},
+                             "impl_forced_sides": sf if sum(len(x) for x in sf) <= 40 else {"lengths": [len(x) for x in sf], "first": [x[:3] for x in sf]},
+                             "corner_is_clockwise": cw, "reversed": reversed_, "SphPolygon_area": o.get("area")}
+                     if (v is not None or kindkey != "enc") and not (kindkey == "enc" and min(h, w) < 3)
+                     and shown.setdefault(kindkey, 0) < 1 and not shown.update({kindkey: 1}) else None)
+            what = "%dx%d %s%s, vertices_per_side=%s" % (h, w, g["tag"], "" if g.get("k") is None else " orientation %d" % g["k"], v)
+            # ---- the property, clause by clause, on the forced ring and on boundary().contour
+            allv = [p for s in sf for p in s] + cf + [p for s in su for p in s] + cu + ed
+            if any(p is None for p in allv):
+                ctx.add_failure("C16.edge_pixels", "%s: a boundary vertex is not a pixel of the geometry" % what, rep)
                 continue
-            ad = dec_sides(o["adb_sides"], table)
-            adc = dec_list(o["adb_contour"], table)
-            okd = all(p is not None for s_ in ad for p in s_)
-            poss = []
-            if okd:
-                for s_full, s_dec in zip(sf, ad):
-                    pos = [s_full.index(p) if p in s_full else None for p in s_dec]
-                    poss.append(pos)
-                okd = all(None not in pos and pos[0] == 0 and pos[-1] == len(s_full) - 1 and all(a_ < b_ for a_, b_ in zip(pos, pos[1:]))
-                          for pos, s_full in zip(poss, sf))
-            if not okd or not all(ad[i][-1] == ad[(i + 1) % 4][0] for i in range(4)) or len(set(adc)) != len(adc) \
-                    or adc != [p for s_ in ad for p in s_[:-1]]:
-                ctx.add_failure("C16.legacy.decimate", "%s: AreaDefBoundary(frequency=%d) is not a closed, repetition-free sub-ring keeping the corners: %s" % (what, q, ad), rep)
+            if not all(rr in (0, h - 1) or cc in (0, w - 1) for rr, cc in allv):
+                ctx.add_failure("C16.edge_pixels", "%s: a boundary vertex is not on the outer rows/columns" % what, rep)
                 continue
-            if o["adb_poly_n"] != len(adc):
-                ctx.add_failure("C16.history.decimate_stale_poly", "%s: AreaDefBoundary(frequency=%d).contour_poly has %d vertices, contour() %d" % (what, q, o["adb_poly_n"], len(adc)), rep)
+            ok_struct = True
+            for nm, s in (("forced", sf), ("unforced", su)):
+                if len(s) != 4 or any(len(x) < 2 for x in s) or not all(s[i][-1] == s[(i + 1) % 4][0] for i in range(4)):
+                    ctx.add_failure("C16.closure", "%s: %s sides do not each end where the next begins: %s" % (what, nm, s), rep)
+                    ok_struct = False
+            if not ok_struct:
                 continue
-            for pos, s_full in zip(poss, sf):
-                L_dec.append("(%d, %d, [%s])" % (len(s_full), q, "; ".join(str(x) for x in pos)))
-        # ---- orientation and footprint (spherical; independent computation)
-        ring = [vec(lons[rr][cc], lats[rr][cc]) for rr, cc in cf]
-        sa = signed_area(ring)
-        cells = 0.0
-        for rr in range(h - 1):
-            for cc in range(w - 1):
-                q = [vec(lons[a][b], lats[a][b]) for a, b in ((rr, cc), (rr, cc + 1), (rr + 1, cc + 1), (rr + 1, cc))]
-                cells += signed_area(q)
-        a_ref = abs(cells)
-        # discretisation allowance: the slivers between each chord and the edge pixels it skips
-        tol = 1e-9 + 1e-6 * a_ref
-        slack_impl = 1e-7 * max(1.0, a_ref)
-        if kindkey == "high_resolution":
-            # footprints of 1e-10 .. 1e-6 sr: SphPolygon.area is a sum of n vertex angles minus (n-2) pi, each rounded at
-            # about 1e-16 relative to pi; the oracle's fan sums are far more accurate
-            tol = 1e-6 * a_ref + 5e-14 * (len(ring) + 10)
-            # SphPolygon.area forms each vertex angle from arctan2(y, x) with x = sin(pa)cos(pp) - cos(pa)sin(pp)cos(dl), a difference
-            # of two numbers of size <= 1 that leaves about the vertex spacing d (radians): absolute error ~2 eps, relative ~2 eps/d,
-            # i.e. up to ~2 eps/d per azimuth, two azimuths per vertex: n * 4 eps / d_min in total (x2 for the other roundings)
-            dmin = min(math.sqrt(sum((ring[i][j] - ring[i - 1][j]) ** 2 for j in range(3))) for i in range(len(ring)))
-            slack_impl = len(ring) * 8 * 2.3e-16 / max(dmin, 1e-9) + 5e-14 * (len(ring) + 10)
-        for s in sf:
-            for p, q in zip(s, s[1:]):
-                if p[0] == q[0]:
-                    path = [(p[0], cc) for cc in range(p[1], q[1], 1 if q[1] > p[1] else -1)] + [q]
-                else:
-                    path = [(rr, p[1]) for rr in range(p[0], q[0], 1 if q[0] > p[0] else -1)] + [q]
-                if len(path) > 2:
-                    tol += sum(abs(tri_solid(vec(lons[path[0][0]][path[0][1]], lats[path[0][0]][path[0][1]]),
-                                             vec(lons[a[0]][a[1]], lats[a[0]][a[1]]), vec(lons[b[0]][b[1]], lats[b[0]][b[1]])))
-                               for a, b in zip(path[1:], path[2:]))
-        if a_ref < 1e-12:
-            ctx.count("ring_skipped_degenerate")
-        else:
-            true_cw_forced = sa < 0
-            area_impl = o["area"]
-            if g["true_cw"] is not None and cw != g["true_cw"]:
-                ctx.add_failure("C16.clockwise." + (kindkey if kindkey in ("high_resolution", "long_side") else "corner_test"),
-                                "%s: _corner_is_clockwise says %s for a ring that runs %s" %
-                                (what, cw, "clockwise" if g["true_cw"] else "counter-clockwise"), rep)
+            if len(set(cf)) != len(cf) or len(set(cu)) != len(cu):
+                ctx.add_failure("C16.no_repeat" + (".vps_gt_side" if beyond else ""),
+                                "%s: the ring repeats a vertex: %d vertices, %d distinct (SphPolygon.area = %r)" % (what, len(cf), len(set(cf)), o.get("area")), rep)
                 continue
-            if not true_cw_forced or not (area_impl < 2 * math.pi):
-                ctx.add_failure("C16.clockwise." + kindkey, "%s: the ring of get_bbox_lonlats(force_clockwise=True) runs counter-clockwise "
-                                "(signed area %+.6g sr, SphPolygon.area %.6g)" % (what, sa, area_impl), rep)
+            if cf != [p for s in sf for p in s[:-1]] or cu != [p for s in su for p in s[:-1]] or ed != [p for s in su for p in s]:
+                ctx.add_failure("C16.api_consistency", "%s: boundary().contour()/get_edge_lonlats() are not the sides minus their last vertex / the concatenated sides" % what, rep)
                 continue
-            if abs(area_impl - a_ref) > tol + slack_impl or abs(-sa - a_ref) > tol:
-                ctx.add_failure("C16.footprint.area", "%s: ring area %.9g (SphPolygon) / %.9g (oracle) vs footprint %.9g, allowance %.3g"
-                                % (what, area_impl, -sa, a_ref, tol), rep)
+            if v is not None and (is_err(o.get("contour_freq")) or dec_list(o["contour_freq"], table) != cf or dec_sides(o["sides_freq"], table) != sf):
+                ctx.add_failure("C16.api_consistency.frequency", "%s: frequency= gives another ring than vertices_per_side=" % what, rep)
                 continue
-            # interior pixel centres inside, far points outside
-            if v is None or (v >= h and v >= w) or g["tag"] == "enc":
-                inner = [(rr, cc) for rr in range(1, h - 1) for cc in range(1, w - 1)]
-            else:
-                inner = [(rr, cc) for rr in range(h // 3, h - h // 3) for cc in range(w // 3, w - w // 3) if 0 < rr < h - 1 and 0 < cc < w - 1]
-                if tol > 0.2 * a_ref:
-                    inner = []
-            if len(inner) > 60:
-                inner = ctx.rng.sample(inner, 60)
-            ctr = vec(lons[h // 2][w // 2], lats[h // 2][w // 2])
-            far = far_points(ctr)
-            if kindkey == "long_side":
-                # the ring may contain antipodal pairs, for which the winding sum is 0: count crossings towards a point that is
-                # at least 10 degrees away from every pixel instead (the footprint is within a pixel spacing of the pixels)
-                step = max(1, (h * w) // 400)
-                allpix = [vec(lons[rr][cc], lats[rr][cc]) for rr in range(h) for cc in range(w)][::step] + ring
-                # generic directions only: the antipode of a pixel lies on the pixel's own scan line / track
-                far = [q for base in (ctr, ring[0], ring[len(ring) // 3]) for p in far_points(base)[1:] for q in (p, tuple(-x for x in p))]
-                far = [p for p in far if max(dot(p, q) for q in allpix) < math.cos(math.radians(10.0))]
-                def is_inside(x):
-                    """majority over three outside reference points (an arc may graze a ring vertex)"""
-                    refs = [q for q in far if abs(dot(x, q)) < 0.95][:3]
-                    return None if len(refs) < 3 else sum(inside_parity(x, q, ring) for q in refs) >= 2
-                bad_in = [p for p in inner if is_inside(vec(lons[p[0]][p[1]], lats[p[0]][p[1]])) is False]
-                if any(is_inside(p) for p in far):
-                    ctx.add_failure("C16.footprint.outside", "%s: a point more than 10 degrees away from every pixel counts as inside" % what, rep)
+            if g["kind"] == "area" and not is_err(o.get("proj_edge")):
+                xt = {uh(x): i for i, x in enumerate(o["proj_x"])}
+                yt = {uh(y): i for i, y in enumerate(o["proj_y"])}
+                pe = [(yt.get(uh(y)), xt.get(uh(x))) for x, y in zip(o["proj_edge"][0], o["proj_edge"][1])]
+                if pe != ed:
+                    ctx.add_failure("C16.api_consistency.proj_edge", "%s: get_edge_bbox_in_projection_coordinates visits other pixels than get_edge_lonlats" % what, rep)
                     continue
-                far = []
+            # ---- legacy entry points: get_boundary_lonlats (complete sides), AreaDefBoundary(area, frequency) (decimated sides)
+            if "legacy_sides" in o:
+                if is_err(o["legacy_sides"]):
+                    ctx.add_failure("C16.error.legacy", "%s: get_boundary_lonlats raised %s" % (what, o["legacy_sides"]["error"]), rep)
+                    continue
+                ls = dec_sides(o["legacy_sides"], table)
+                want = [[(0, cc) for cc in range(w)], [(rr, w - 1) for rr in range(h)],
+                        [(h - 1, cc) for cc in range(w - 1, -1, -1)], [(rr, 0) for rr in range(h - 1, -1, -1)]]
+                ctx.count("legacy_get_boundary_lonlats")
+                if ls != want:
+                    ctx.add_failure("C16.legacy.boundary_lonlats", "%s: get_boundary_lonlats does not return the four complete edge rows/columns" % what, rep)
+                    continue
+                L_full.append("(%d, %d, %s)" % (h, w, sidesl(ls)))
+            if "adb_sides" in o:
+                ctx.count("legacy_AreaDefBoundary_frequency")
+                q = g["frequency_legacy"]
+                if is_err(o["adb_sides"]):
+                    ctx.add_failure("C16.error.legacy", "%s: AreaDefBoundary(frequency=%d) raised %s" % (what, q, o["adb_sides"]["error"]), rep)
+                    continue
+                ad = dec_sides(o["adb_sides"], table)
+                adc = dec_list(o["adb_contour"], table)
+                okd = all(p is not None for s_ in ad for p in s_)
+                poss = []
+                if okd:
+                    for s_full, s_dec in zip(sf, ad):
+                        pos = [s_full.index(p) if p in s_full else None for p in s_dec]
+                        poss.append(pos)
+                    okd = all(None not in pos and pos[0] == 0 and pos[-1] == len(s_full) - 1 and all(a_ < b_ for a_, b_ in zip(pos, pos[1:]))
+                              for pos, s_full in zip(poss, sf))
+                if not okd or not all(ad[i][-1] == ad[(i + 1) % 4][0] for i in range(4)) or len(set(adc)) != len(adc) \
+                        or adc != [p for s_ in ad for p in s_[:-1]]:
+                    ctx.add_failure("C16.legacy.decimate", "%s: AreaDefBoundary(frequency=%d) is not a closed, repetition-free sub-ring keeping the corners: %s" % (what, q, ad), rep)
+                    continue
+                if o["adb_poly_n"] != len(adc):
+                    ctx.add_failure("C16.history.decimate_stale_poly", "%s: AreaDefBoundary(frequency=%d).contour_poly has %d vertices, contour() %d" % (what, q, o["adb_poly_n"], len(adc)), rep)
+                    continue
+                for pos, s_full in zip(poss, sf):
+                    L_dec.append("(%d, %d, [%s])" % (len(s_full), q, "; ".join(str(x) for x in pos)))
+            # ---- orientation and footprint (spherical; independent computation)
+            ring = [vec(lons[rr][cc], lats[rr][cc]) for rr, cc in cf]
+            sa = signed_area(ring)
+            cells = 0.0
+            for rr in range(h - 1):
+                for cc in range(w - 1):
+                    q = [vec(lons[a][b], lats[a][b]) for a, b in ((rr, cc), (rr, cc + 1), (rr + 1, cc + 1), (rr + 1, cc))]
+                    cells += signed_area(q)
+            a_ref = abs(cells)
+            # discretisation allowance: the slivers between each chord and the edge pixels it skips
+            tol = 1e-9 + 1e-6 * a_ref
+            slack_impl = 1e-7 * max(1.0, a_ref)
+            if kindkey == "high_resolution":
+                # footprints of 1e-10 .. 1e-6 sr: SphPolygon.area is a sum of n vertex angles minus (n-2) pi, each rounded at
+                # about 1e-16 relative to pi; the oracle's fan sums are far more accurate
+                tol = 1e-6 * a_ref + 5e-14 * (len(ring) + 10)
+                # SphPolygon.area forms each vertex angle from arctan2(y, x) with x = sin(pa)cos(pp) - cos(pa)sin(pp)cos(dl), a difference
+                # of two numbers of size <= 1 that leaves about the vertex spacing d (radians): absolute error ~2 eps, relative ~2 eps/d,
+                # i.e. up to ~2 eps/d per azimuth, two azimuths per vertex: n * 4 eps / d_min in total (x2 for the other roundings)
+                dmin = min(math.sqrt(sum((ring[i][j] - ring[i - 1][j]) ** 2 for j in range(3))) for i in range(len(ring)))
+                slack_impl = len(ring) * 8 * 2.3e-16 / max(dmin, 1e-9) + 5e-14 * (len(ring) + 10)
+            for s in sf:
+                for p, q in zip(s, s[1:]):
+                    if p[0] == q[0]:
+                        path = [(p[0], cc) for cc in range(p[1], q[1], 1 if q[1] > p[1] else -1)] + [q]
+                    else:
+                        path = [(rr, p[1]) for rr in range(p[0], q[0], 1 if q[0] > p[0] else -1)] + [q]
+                    if len(path) > 2:
+                        tol += sum(abs(tri_solid(vec(lons[path[0][0]][path[0][1]], lats[path[0][0]][path[0][1]]),
+                                                 vec(lons[a[0]][a[1]], lats[a[0]][a[1]]), vec(lons[b[0]][b[1]], lats[b[0]][b[1]])))
+                                   for a, b in zip(path[1:], path[2:]))
+            if a_ref < 1e-12:
+                ctx.count("ring_skipped_degenerate")
             else:
-                bad_in = [p for p in inner if abs(winding(vec(lons[p[0]][p[1]], lats[p[0]][p[1]]), ring) + 2 * math.pi) > 1e-3]
-            if bad_in:
-                ctx.add_failure("C16.footprint.inside", "%s: interior pixel centre %s is not inside the ring" % (what, bad_in[0]), rep)
-                continue
-            if a_ref < 1.0 and any(winding(p, ring) < -math.pi for p in far):
-                ctx.add_failure("C16.footprint.outside", "%s: a point a quarter of the globe (or more) away counts as inside" % what, rep)
-                continue
-        L.append("(mkRing %d %d %s %s %s %s %s %s %s)" % (h, w, vpsl(v), "true" if cw else "false", sidesl(su), sidesl(sf),
-                                                         pixl(cf), pixl(cu), pixl(ed)))
+                true_cw_forced = sa < 0
+                area_impl = o["area"]
+                if g["true_cw"] is not None and cw != g["true_cw"]:
+                    ctx.add_failure("C16.clockwise." + (kindkey if kindkey in ("high_resolution", "long_side") else "corner_test"),
+                                    "%s: _corner_is_clockwise says %s for a ring that runs %s" %
+                                    (what, cw, "clockwise" if g["true_cw"] else "counter-clockwise"), rep)
+                    continue
+                if not true_cw_forced or not (area_impl < 2 * math.pi):
+                    ctx.add_failure("C16.clockwise." + kindkey, "%s: the ring of get_bbox_lonlats(force_clockwise=True) runs counter-clockwise "
+                                    "(signed area %+.6g sr, SphPolygon.area %.6g)" % (what, sa, area_impl), rep)
+                    continue
+                if abs(area_impl - a_ref) > tol + slack_impl or abs(-sa - a_ref) > tol:
+                    ctx.add_failure("C16.footprint.area", "%s: ring area %.9g (SphPolygon) / %.9g (oracle) vs footprint %.9g, allowance %.3g"
+                                    % (what, area_impl, -sa, a_ref, tol), rep)
+                    continue
+                # interior pixel centres inside, far points outside
+                if v is None or (v >= h and v >= w) or g["tag"] == "enc":
+                    inner = [(rr, cc) for rr in range(1, h - 1) for cc in range(1, w - 1)]
+                else:
+                    inner = [(rr, cc) for rr in range(h // 3, h - h // 3) for cc in range(w // 3, w - w // 3) if 0 < rr < h - 1 and 0 < cc < w - 1]
+                    if tol > 0.2 * a_ref:
+                        inner = []
+                if len(inner) > 60:
+                    inner = ctx.rng.sample(inner, 60)
+                ctr = vec(lons[h // 2][w // 2], lats[h // 2][w // 2])
+                far = far_points(ctr)
+                if kindkey == "long_side":
+                    # the ring may contain antipodal pairs, for which the winding sum is 0: count crossings towards a point that is
+                    # at least 10 degrees away from every pixel instead (the footprint is within a pixel spacing of the pixels)
+                    step = max(1, (h * w) // 400)
+                    allpix = [vec(lons[rr][cc], lats[rr][cc]) for rr in range(h) for cc in range(w)][::step] + ring
+                    # generic directions only: the antipode of a pixel lies on the pixel's own scan line / track
+                    far = [q for base in (ctr, ring[0], ring[len(ring) // 3]) for p in far_points(base)[1:] for q in (p, tuple(-x for x in p))]
+                    far = [p for p in far if max(dot(p, q) for q in allpix) < math.cos(math.radians(10.0))]
+                    def is_inside(x):
+                        """majority over three outside reference points (an arc may graze a ring vertex)"""
+                        refs = [q for q in far if abs(dot(x, q)) < 0.95][:3]
+                        return None if len(refs) < 3 else sum(inside_parity(x, q, ring) for q in refs) >= 2
+                    bad_in = [p for p in inner if is_inside(vec(lons[p[0]][p[1]], lats[p[0]][p[1]])) is False]
+                    if any(is_inside(p) for p in far):
+                        ctx.add_failure("C16.footprint.outside", "%s: a point more than 10 degrees away from every pixel counts as inside" % what, rep)
+                        continue
+                    far = []
+                else:
+                    bad_in = [p for p in inner if abs(winding(vec(lons[p[0]][p[1]], lats[p[0]][p[1]]), ring) + 2 * math.pi) > 1e-3]
+                if bad_in:
+                    ctx.add_failure("C16.footprint.inside", "%s: interior pixel centre %s is not inside the ring" % (what, bad_in[0]), rep)
+                    continue
+                if a_ref < 1.0 and any(winding(p, ring) < -math.pi for p in far):
+                    ctx.add_failure("C16.footprint.outside", "%s: a point a quarter of the globe (or more) away counts as inside" % what, rep)
+                    continue
+            L.append("(mkRing %d %d %s %s %s %s %s %s %s)" % (h, w, vpsl(v), "true" if cw else "false", sidesl(su), sidesl(sf),
+                                                             pixl(cf), pixl(cu), pixl(ed)))
+        except Exception as exc:      # an observation the oracle was not prepared for: attribute it, never crash
+            ctx.add_failure("C16.error.observation.ring", "the oracle could not interpret what the implementation returned (%s: %s)" % (type(exc).__name__, exc),
+                            rep if isinstance(rep, dict) else {"oracle": "ring"})
     for i in range(0, len(L), 250):
         texts.append(("c16_ring_%d" % (i // 250), HDR + "Definition cases : list ring_obs := [%s].\nEval vm_compute in (bad chk_ring cases).\n"
                       % ";\n".join(L[i:i + 250]), L[i:i + 250], "ring"))
 
     # ================================================================= AreaBoundary.decimate (positions kept; memoised polygon)
     for (lens, q, touch), o in zip(cases.get("decimate", []), obs.get("decimate", [])):
-        ctx.case(("dec", tuple(lens), q, touch), nontrivial=q > 1,
-                 sample={"decimate": {"side_lengths": lens, "ratio": q, "contour_poly_read_before": touch},
-                         "impl_positions": o.get("positions"), "contour_poly_vertices_after": o.get("poly_n_after")}
-                 if not is_err(o) and q >= 2 and 5 <= max(lens) <= 14 and (touch or lens[0] == 11) else None)
-        ctx.count("decimate_" + ("after_contour_poly" if touch else "fresh"))
-        rep = {"oracle": "decimate", "args": [lens, q, touch]}
-        if is_err(o):
-            ctx.add_failure("C16.error.legacy", "AreaBoundary.decimate(%d) on sides of %s vertices raised %s" % (q, lens, o["error"]), rep)
-            continue
-        okd = o["positions"] == o["lat_positions"] and all(
-            pos and pos[0] == 0 and pos[-1] == L_ - 1 and all(a_ < b_ for a_, b_ in zip(pos, pos[1:])) for pos, L_ in zip(o["positions"], lens))
-        if not okd:
-            ctx.add_failure("C16.legacy.decimate", "AreaBoundary.decimate(%d) on sides of %s vertices keeps positions %s: not increasing from the first to the last vertex"
-                            % (q, lens, o["positions"]), rep)
-            continue
-        if not o["poly_matches_contour"] or not o["vertices_match_contour"]:
-            ctx.add_failure("C16.history.decimate_stale_poly", "b.contour_poly%s; b.decimate(%d); b.contour_poly has %d vertices while b.contour() has %d (sides of %s vertices)"
-                            % ("" if touch else " (not read before)", q, o["poly_n_after"], o["contour_n"], lens), rep)
-            continue
-        for pos, L_ in zip(o["positions"], lens):
-            L_dec.append("(%d, %d, [%s])" % (L_, q, "; ".join(str(x) for x in pos)))
+        rep = None
+        try:
+            ctx.case(("dec", tuple(lens), q, touch), nontrivial=q > 1,
+                     sample={"decimate": {"side_lengths": lens, "ratio": q, "contour_poly_read_before": touch},
+                             "impl_positions": o.get("positions"), "contour_poly_vertices_after": o.get("poly_n_after")}
+                     if not is_err(o) and q >= 2 and 5 <= max(lens) <= 14 and (touch or lens[0] == 11) else None)
+            ctx.count("decimate_" + ("after_contour_poly" if touch else "fresh"))
+            rep = {"oracle": "decimate", "args": [lens, q, touch]}
+            if is_err(o):
+                ctx.add_failure("C16.error.legacy", "AreaBoundary.decimate(%d) on sides of %s vertices raised %s" % (q, lens, o["error"]), rep)
+                continue
+            okd = o["positions"] == o["lat_positions"] and all(
+                pos and pos[0] == 0 and pos[-1] == L_ - 1 and all(a_ < b_ for a_, b_ in zip(pos, pos[1:])) for pos, L_ in zip(o["positions"], lens))
+            if not okd:
+                ctx.add_failure("C16.legacy.decimate", "AreaBoundary.decimate(%d) on sides of %s vertices keeps positions %s: not increasing from the first to the last vertex"
+                                % (q, lens, o["positions"]), rep)
+                continue
+            if not o["poly_matches_contour"] or not o["vertices_match_contour"]:
+                ctx.add_failure("C16.history.decimate_stale_poly", "b.contour_poly%s; b.decimate(%d); b.contour_poly has %d vertices while b.contour() has %d (sides of %s vertices)"
+                                % ("" if touch else " (not read before)", q, o["poly_n_after"], o["contour_n"], lens), rep)
+                continue
+            for pos, L_ in zip(o["positions"], lens):
+                L_dec.append("(%d, %d, [%s])" % (L_, q, "; ".join(str(x) for x in pos)))
+        except Exception as exc:      # an observation the oracle was not prepared for: attribute it, never crash
+            ctx.add_failure("C16.error.observation.decimate", "the oracle could not interpret what the implementation returned (%s: %s)" % (type(exc).__name__, exc),
+                            rep if isinstance(rep, dict) else {"oracle": "decimate"})
     L_dec = list(dict.fromkeys(L_dec))
     for i in range(0, len(L_dec), 500):
         texts.append(("c16_dec_%d" % (i // 500), HDR + "Definition cases : list (Z * Z * list Z) := [%s].\nEval vm_compute in (bad chk_decimate cases).\n"
@@ -799,121 +836,159 @@ def run(ctx):
 
     # ================================================================= NaN filtering
     L = []
-    for (h, w, v, nlon, nlat), o in zip(cases["nan"], obs["rings"][nring:]):
-        hit = set(nlon) | set(nlat)
-        ctx.count("nan_edge_pixels")
-        if is_err(o):
-            ctx.broken.append(("correspondence:nan", "driver error %s" % o))
-            continue
-        su = o.get("sides_u")
-        if is_err(su):
-            exp = "None" if su["error"] == "ValueError" else None
-            if exp is None:
-                ctx.add_failure("C16.error.nan", "get_bbox_lonlats on a %dx%d swath with NaN edge pixels %s raised %s" % (h, w, sorted(hit), su["error"]),
-                                {"oracle": "nan", "args": [h, w, v, nlon, nlat]})
+    for (h, w, v, nlon, nlat, cls, container), o in zip(cases["nan"], obs["rings"][nring:]):
+        rep = None
+        try:
+            hit = set(nlon) | set(nlat)
+            rep = {"oracle": "nan", "args": [h, w, v, nlon, nlat, cls, container]}
+            what = "%dx%d %s swath, vertices_per_side=%s, NaN longitude at %s, NaN latitude at %s" % (h, w, container, v, sorted(nlon), sorted(nlat))
+            ctx.count("nan_%s_%s" % (cls, container))
+            if is_err(o):
+                ctx.add_failure("C16.error.nan", "%s: boundary code raised %s: %s" % (what, o["error"], o.get("msg")), rep)
                 continue
-            dec = None
-        else:
-            dec = [[(int(uh(b)), int(uh(a))) for a, b in zip(lo, la)] for lo, la in su]
-            if any(p in hit for s in dec for p in s):
-                ctx.add_failure("C16.nan_filter", "a NaN pixel is reported as a boundary vertex", {"oracle": "nan", "args": [h, w, v, nlon, nlat]})
+            su = o.get("sides_u")
+            # every coordinate any boundary entry point returns must be a finite coordinate of an edge pixel
+            bad_api = None
+            for api in ("sides_u", "sides_f", "sides_freq"):
+                val = o.get(api)
+                if val is not None and not is_err(val) and any(not math.isfinite(uh(x)) for lo, la in val for x in list(lo) + list(la)):
+                    bad_api = {"sides_u": "get_bbox_lonlats(force_clockwise=False)", "sides_f": "get_bbox_lonlats(force_clockwise=True)",
+                               "sides_freq": "get_bbox_lonlats(frequency=...)"}[api]
+                    break
+            if bad_api is None:
+                for api, name in (("edge", "get_edge_lonlats"), ("contour", "boundary(force_clockwise=True).contour"), ("contour_u", "boundary().contour"),
+                                  ("vertices", "boundary(force_clockwise=True).vertices")):
+                    val = o.get(api)
+                    if val is not None and not is_err(val) and any(not math.isfinite(uh(x)) for x in list(val[0]) + list(val[1])):
+                        bad_api = name
+                        break
+            if bad_api is None and not is_err(o.get("contour")) and o.get("area") is not None and not math.isfinite(o["area"]):
+                bad_api = "boundary(force_clockwise=True).contour_poly.area()"
+            if bad_api:
+                only = "lat_only" if nlat and not nlon else "lon_only" if nlon and not nlat else "lon_and_lat"
+                ctx.case(("nan", h, w, v, tuple(nlon), tuple(nlat), container), nontrivial=True)
+                ctx.add_failure("C16.nan_filter." + only, "%s: %s returns a vertex with a NaN coordinate (not a coordinate of any pixel; the polygon area becomes NaN)"
+                                % (what, bad_api), rep)
                 continue
-            exp = "(Some %s)" % sidesl(dec)
-        ctx.case(("nan", h, w, v, tuple(nlon), tuple(nlat)), nontrivial=True, sample={"nan_case": [h, w, v], "nan_pixels": sorted(hit), "impl_sides": dec})
-        L.append("(%d, %d, %s, %s, %s, %s)" % (h, w, vpsl(v), pixl(nlon), pixl(nlat), exp))
+            if is_err(su):
+                exp = "None" if su["error"] == "ValueError" else None
+                if exp is None:
+                    ctx.add_failure("C16.error.nan", "%s: get_bbox_lonlats raised %s" % (what, su["error"]), rep)
+                    continue
+                dec = None
+            else:
+                dec = [[(int(round(uh(b))), int(round(uh(a)))) for a, b in zip(lo, la)] for lo, la in su]
+                if any(p in hit for s_ in dec for p in s_):
+                    ctx.add_failure("C16.nan_filter.wrong_pixel", "%s: a NaN pixel is reported as a boundary vertex" % what, rep)
+                    continue
+                # independent statement of the filter: each side is the list of its valid selected pixels, in order
+                exp = "(Some %s)" % sidesl(dec)
+            ctx.case(("nan", h, w, v, tuple(nlon), tuple(nlat), container), nontrivial=True,
+                     sample={"nan_case": {"shape": [h, w], "vertices_per_side": v, "container": container, "class": cls},
+                             "nan_longitude_pixels": sorted(nlon), "nan_latitude_pixels": sorted(nlat), "impl_sides": dec})
+            L.append("(%d, %d, %s, %s, %s, %s)" % (h, w, vpsl(v), pixl(nlon), pixl(nlat), exp))
+        except Exception as exc:      # an observation the oracle was not prepared for: attribute it, never crash
+            ctx.add_failure("C16.error.observation.nan", "the oracle could not interpret what the implementation returned (%s: %s)" % (type(exc).__name__, exc),
+                            rep if isinstance(rep, dict) else {"oracle": "nan"})
+    L = list(dict.fromkeys(L))
     texts.append(("c16_nan", HDR + "Definition cases : list (Z * Z * option Z * list pix * list pix * option (list (list pix))) := [%s].\n"
                   "Eval vm_compute in (bad chk_nan cases).\n" % ";\n".join(L), L, "nan_filter"))
 
     # ================================================================= geostationary areas
     L = []
     for g, o in zip(cases["geos"], obs["geos"]):
-        v, ext = g["vps"], g["extent"]
-        rep = {"oracle": "geos", "case": {k: g[k] for k in ("tag", "extent", "vps", "lon_0", "proj", "shape", "nb_points")}}
-        what = "geostationary area extent %s, vertices_per_side=%s" % ([round(e) for e in ext], v)
-        if is_err(o):
-            ctx.add_failure("C16.error.geos", "%s: %s" % (what, o), rep)
-            continue
-        # independent clipping of the disk polygon by the extent rectangle (both convex)
-        nb = g["nb_points"]
-        disk = [(math.cos(t) * (xa - 0.0001) * GEOS_H, -math.sin(t) * (ya - 0.0001) * GEOS_H)
-                for t in (-math.pi + 2 * math.pi * i / nb for i in range(nb))]
-        poly = clip_rect(disk, ext)
-        cut = len(poly) >= 3 and any(not (ext[0] < x < ext[2] and ext[1] < y < ext[3]) for x, y in disk)
-        ctx.case(("geos", g["tag"], tuple(ext), v, g["lon_0"]), nontrivial=cut or v is not None,
-                 sample=None if not cut or v in (2, 3, 4) else {"geos": {"extent": ext, "vertices_per_side": v, "lon_0": g["lon_0"]}, "impl_side_lengths": [len(s[0]) for s in o["sides_proj"]] if not is_err(o["sides_proj"]) else o["sides_proj"]})
-        ctx.count("geos_" + ("empty" if len(poly) < 3 else "partial_disk" if cut else "inside_disk"))
-        if len(poly) < 3 or poly_area(poly) < 1e-6 * X * Y:
-            continue   # the area does not see the Earth: an error is the documented answer
-        errs = [k for k in ("sides_proj", "sides_f", "bbox_proj") if is_err(o.get(k))]
-        if errs and len(dedupe(poly, 1e-6 * max(X, Y))) == 3:
-            ctx.add_failure("C16.geos.triangle_intersection", "%s: the extent cuts a triangle out of the %d-point Earth disk; %s raised %s: %s"
-                            % (what, nb, errs[0], o[errs[0]]["error"], o[errs[0]].get("msg")), rep)
-            continue
-        if errs:
-            ctx.add_failure("C16.geos.partial_disk.error", "%s: %s raised %s: %s" % (what, errs[0], o[errs[0]]["error"], o[errs[0]].get("msg")), rep)
-            continue
-        bx = list(zip([uh(x) for x in o["bbox_proj"][0]], [uh(y) for y in o["bbox_proj"][1]]))
-        sp = [list(zip([uh(x) for x in s[0]], [uh(y) for y in s[1]])) for s in o["sides_proj"]]
-        ringp = [p for s in sp for p in s[:-1]]
-        scale = max(X, Y)
-        # (a) the ring is the intersection polygon: same vertex set as the independent clipping
-        def close_to(p, q):
-            return abs(p[0] - q[0]) <= 1e-6 * scale and abs(p[1] - q[1]) <= 1e-6 * scale
-        mine = dedupe(poly, 1e-6 * scale)
-        theirs = dedupe(ringp, 1e-6 * scale)
-        if len(mine) != len(theirs) or not all(any(close_to(p, q) for q in theirs) for p in mine):
-            ctx.add_failure("C16.geos.intersection", "%s: the ring has %d vertices, the intersection of the extent with the %d-point Earth disk has %d"
-                            % (what, len(theirs), nb, len(mine)), rep)
-            continue
-        # (b) vertices inside the disk and the extent, finite lon/lat, closed, no repeats
-        tolp = 1e-6 * scale
-        if not all((x / X) ** 2 + (y / Y) ** 2 <= 1.0 + 1e-9 and ext[0] - tolp <= x <= ext[2] + tolp and ext[1] - tolp <= y <= ext[3] + tolp for x, y in ringp):
-            ctx.add_failure("C16.geos.inside_disk", "%s: a boundary vertex lies outside the Earth disk or the extent" % what, rep)
-            continue
-        sf = [list(zip([uh(x) for x in s[0]], [uh(y) for y in s[1]])) for s in o["sides_f"]]
-        if not all(math.isfinite(a) and math.isfinite(b) for s in sf for a, b in s):
-            ctx.add_failure("C16.geos.finite", "%s: a boundary vertex has no finite longitude/latitude" % what, rep)
-            continue
-        if not all(len(s) >= 2 for s in sf) or not all(sf[i][-1] == sf[(i + 1) % 4][0] for i in range(4)) or \
-                not all(sp[i][-1] == sp[(i + 1) % 4][0] for i in range(4)):
-            ctx.add_failure("C16.geos.closure", "%s: a side does not end where the next begins" % what, rep)
-            continue
-        cont = list(zip([uh(x) for x in o["contour"][0]], [uh(y) for y in o["contour"][1]]))
-        if len(set(cont)) != len(cont) or len(set(ringp)) != len(ringp):
-            ctx.add_failure("C16.geos.no_repeat", "%s: the ring repeats a vertex" % what, rep)
-            continue
-        # (c) clockwise, below a hemisphere
-        ring = [vec(a, b) for a, b in cont]
-        sa = signed_area(ring)
-        degenerate = min_turn(ringp, 1e-7 * scale) < 1e-7
-        if not (sa < 0 and o["area"] < 2 * math.pi):
-            key = "C16.geos.clockwise"
-            ctx.add_failure(key, "%s: the ring of get_bbox_lonlats(force_clockwise=True) runs counter-clockwise (signed area %+.6g sr, "
-                            "SphPolygon.area %.6g)%s" % (what, sa, o["area"], "; two intersection vertices nearly coincide" if degenerate else ""), rep)
-            continue
-        if abs(o["area"] + sa) > 1e-6:
-            ctx.add_failure("C16.footprint.area", "%s: SphPolygon.area %.9g differs from the oracle's %.9g" % (what, o["area"], -sa), rep)
-            continue
-        # (d) the centroid of the planar polygon (mapped by PROJ in the driver is not available here): use ring vertices' mean direction
-        m = [sum(p[i] for p in ring) for i in range(3)]
-        nrm = math.sqrt(dot(m, m))
-        m = tuple(x / nrm for x in m)
-        # the normalised mean of the vertices is inside the ring when the ring is spherically convex (every turn to the right:
-        # a convex region within a hemisphere contains the normalised convex combinations of its points).  A sparse ring next
-        # to the limb need not be convex on the sphere although it is in the projection plane; then the probe proves nothing.
-        nr = len(ring)
-        convex = all(dot(cross(ring[i], ring[(i + 1) % nr]), ring[(i + 2) % nr]) < 0 for i in range(nr))
-        ctx.count("geos_inside_probe_" + ("convex_ring" if convex else "skipped_nonconvex_ring"))
-        if convex and (abs(winding(m, ring) + 2 * math.pi) > 1e-3 or any(winding(p, ring) < -math.pi for p in far_points(m)[:1])):
-            ctx.add_failure("C16.footprint.inside", "%s: the middle of the ring is not inside it / its antipode is" % what, rep)
-            continue
-        # correspondence: which intersection vertices go to which side
-        pos = {p: i for i, p in enumerate(bx)}
-        idxs = [[pos.get(p) for p in s] for s in sp]
-        if any(i is None for s in idxs for i in s):
-            ctx.broken.append(("correspondence:geos_sides", "a side vertex is not a vertex of get_geostationary_bounding_box_in_proj_coords: %s" % what))
-            continue
-        L.append("(%d, [%s])" % (len(bx), "; ".join("[" + "; ".join(str(i) for i in s) + "]" for s in idxs)))
+        rep = None
+        try:
+            v, ext = g["vps"], g["extent"]
+            rep = {"oracle": "geos", "case": {k: g[k] for k in ("tag", "extent", "vps", "lon_0", "proj", "shape", "nb_points")}}
+            what = "geostationary area extent %s, vertices_per_side=%s" % ([round(e) for e in ext], v)
+            if is_err(o):
+                ctx.add_failure("C16.error.geos", "%s: %s" % (what, o), rep)
+                continue
+            # independent clipping of the disk polygon by the extent rectangle (both convex)
+            nb = g["nb_points"]
+            disk = [(math.cos(t) * (xa - 0.0001) * GEOS_H, -math.sin(t) * (ya - 0.0001) * GEOS_H)
+                    for t in (-math.pi + 2 * math.pi * i / nb for i in range(nb))]
+            poly = clip_rect(disk, ext)
+            cut = len(poly) >= 3 and any(not (ext[0] < x < ext[2] and ext[1] < y < ext[3]) for x, y in disk)
+            ctx.case(("geos", g["tag"], tuple(ext), v, g["lon_0"]), nontrivial=cut or v is not None,
+                     sample=None if not cut or v in (2, 3, 4) else {"geos": {"extent": ext, "vertices_per_side": v, "lon_0": g["lon_0"]}, "impl_side_lengths": [len(s[0]) for s in o["sides_proj"]] if not is_err(o["sides_proj"]) else o["sides_proj"]})
+            ctx.count("geos_" + ("empty" if len(poly) < 3 else "partial_disk" if cut else "inside_disk"))
+            if len(poly) < 3 or poly_area(poly) < 1e-6 * X * Y:
+                continue   # the area does not see the Earth: an error is the documented answer
+            errs = [k for k in ("sides_proj", "sides_f", "bbox_proj") if is_err(o.get(k))]
+            if errs and len(dedupe(poly, 1e-6 * max(X, Y))) == 3:
+                ctx.add_failure("C16.geos.triangle_intersection", "%s: the extent cuts a triangle out of the %d-point Earth disk; %s raised %s: %s"
+                                % (what, nb, errs[0], o[errs[0]]["error"], o[errs[0]].get("msg")), rep)
+                continue
+            if errs:
+                ctx.add_failure("C16.geos.partial_disk.error", "%s: %s raised %s: %s" % (what, errs[0], o[errs[0]]["error"], o[errs[0]].get("msg")), rep)
+                continue
+            bx = list(zip([uh(x) for x in o["bbox_proj"][0]], [uh(y) for y in o["bbox_proj"][1]]))
+            sp = [list(zip([uh(x) for x in s[0]], [uh(y) for y in s[1]])) for s in o["sides_proj"]]
+            ringp = [p for s in sp for p in s[:-1]]
+            scale = max(X, Y)
+            # (a) the ring is the intersection polygon: same vertex set as the independent clipping
+            def close_to(p, q):
+                return abs(p[0] - q[0]) <= 1e-6 * scale and abs(p[1] - q[1]) <= 1e-6 * scale
+            mine = dedupe(poly, 1e-6 * scale)
+            theirs = dedupe(ringp, 1e-6 * scale)
+            if len(mine) != len(theirs) or not all(any(close_to(p, q) for q in theirs) for p in mine):
+                ctx.add_failure("C16.geos.intersection", "%s: the ring has %d vertices, the intersection of the extent with the %d-point Earth disk has %d"
+                                % (what, len(theirs), nb, len(mine)), rep)
+                continue
+            # (b) vertices inside the disk and the extent, finite lon/lat, closed, no repeats
+            tolp = 1e-6 * scale
+            if not all((x / X) ** 2 + (y / Y) ** 2 <= 1.0 + 1e-9 and ext[0] - tolp <= x <= ext[2] + tolp and ext[1] - tolp <= y <= ext[3] + tolp for x, y in ringp):
+                ctx.add_failure("C16.geos.inside_disk", "%s: a boundary vertex lies outside the Earth disk or the extent" % what, rep)
+                continue
+            sf = [list(zip([uh(x) for x in s[0]], [uh(y) for y in s[1]])) for s in o["sides_f"]]
+            if not all(math.isfinite(a) and math.isfinite(b) for s in sf for a, b in s):
+                ctx.add_failure("C16.geos.finite", "%s: a boundary vertex has no finite longitude/latitude" % what, rep)
+                continue
+            if not all(len(s) >= 2 for s in sf) or not all(sf[i][-1] == sf[(i + 1) % 4][0] for i in range(4)) or \
+                    not all(sp[i][-1] == sp[(i + 1) % 4][0] for i in range(4)):
+                ctx.add_failure("C16.geos.closure", "%s: a side does not end where the next begins" % what, rep)
+                continue
+            cont = list(zip([uh(x) for x in o["contour"][0]], [uh(y) for y in o["contour"][1]]))
+            if len(set(cont)) != len(cont) or len(set(ringp)) != len(ringp):
+                ctx.add_failure("C16.geos.no_repeat", "%s: the ring repeats a vertex" % what, rep)
+                continue
+            # (c) clockwise, below a hemisphere
+            ring = [vec(a, b) for a, b in cont]
+            sa = signed_area(ring)
+            degenerate = min_turn(ringp, 1e-7 * scale) < 1e-7
+            if not (sa < 0 and o["area"] < 2 * math.pi):
+                key = "C16.geos.clockwise"
+                ctx.add_failure(key, "%s: the ring of get_bbox_lonlats(force_clockwise=True) runs counter-clockwise (signed area %+.6g sr, "
+                                "SphPolygon.area %.6g)%s" % (what, sa, o["area"], "; two intersection vertices nearly coincide" if degenerate else ""), rep)
+                continue
+            if abs(o["area"] + sa) > 1e-6:
+                ctx.add_failure("C16.footprint.area", "%s: SphPolygon.area %.9g differs from the oracle's %.9g" % (what, o["area"], -sa), rep)
+                continue
+            # (d) the centroid of the planar polygon (mapped by PROJ in the driver is not available here): use ring vertices' mean direction
+            m = [sum(p[i] for p in ring) for i in range(3)]
+            nrm = math.sqrt(dot(m, m))
+            m = tuple(x / nrm for x in m)
+            # the normalised mean of the vertices is inside the ring when the ring is spherically convex (every turn to the right:
+            # a convex region within a hemisphere contains the normalised convex combinations of its points).  A sparse ring next
+            # to the limb need not be convex on the sphere although it is in the projection plane; then the probe proves nothing.
+            nr = len(ring)
+            convex = all(dot(cross(ring[i], ring[(i + 1) % nr]), ring[(i + 2) % nr]) < 0 for i in range(nr))
+            ctx.count("geos_inside_probe_" + ("convex_ring" if convex else "skipped_nonconvex_ring"))
+            if convex and (abs(winding(m, ring) + 2 * math.pi) > 1e-3 or any(winding(p, ring) < -math.pi for p in far_points(m)[:1])):
+                ctx.add_failure("C16.footprint.inside", "%s: the middle of the ring is not inside it / its antipode is" % what, rep)
+                continue
+            # correspondence: which intersection vertices go to which side
+            pos = {p: i for i, p in enumerate(bx)}
+            idxs = [[pos.get(p) for p in s] for s in sp]
+            if any(i is None for s in idxs for i in s):
+                ctx.broken.append(("correspondence:geos_sides", "a side vertex is not a vertex of get_geostationary_bounding_box_in_proj_coords: %s" % what))
+                continue
+            L.append("(%d, [%s])" % (len(bx), "; ".join("[" + "; ".join(str(i) for i in s) + "]" for s in idxs)))
+        except Exception as exc:      # an observation the oracle was not prepared for: attribute it, never crash
+            ctx.add_failure("C16.error.observation.geos", "the oracle could not interpret what the implementation returned (%s: %s)" % (type(exc).__name__, exc),
+                            rep if isinstance(rep, dict) else {"oracle": "geos"})
     texts.append(("c16_geos", HDR + "Definition cases : list (Z * list (list Z)) := [%s].\nEval vm_compute in (bad chk_geos cases).\n" % ";\n".join(L), L, "geos_sides"))
 
     # ================================================================= model evaluation
@@ -1008,8 +1083,9 @@ def replay(ctx, data):
     elif kind == "ring":
         cases = {"linspace": [], "slices": [], "rings": [case["case"]], "nan": [], "geos": [], "geos_consts": geos_consts()}
     elif kind == "nan":
-        h, w, v, nlon, nlat = case["args"]
-        cases = {"linspace": [], "slices": [], "rings": [], "nan": [(h, w, v, [tuple(p) for p in nlon], [tuple(p) for p in nlat])],
+        h, w, v, nlon, nlat = case["args"][:5]
+        cls, container = (case["args"] + ["mixed", "numpy"])[5:7]
+        cases = {"linspace": [], "slices": [], "rings": [], "nan": [(h, w, v, [tuple(p) for p in nlon], [tuple(p) for p in nlat], cls, container)],
                  "geos": [], "geos_consts": geos_consts()}
     elif kind == "decimate":
         lens, q, t = case["args"]
